@@ -60,6 +60,38 @@ Definition check_case (c : tcase) : bool := C02Check.check_case tbl c.
 Definition diag_case (c : tcase) : string := to_string (diag_bytes tbl c).
 """
 
+PREAMBLE_OPS = """From DL Require Import Lib.Bytes Model.Lexer Model.DenseGen Model.Precedence Model.C02Check Generated.C02Tables.
+Open Scope N_scope.
+Open Scope string_scope.
+Definition pc (e : expr) (d r : string) : pcase := {| p_expr := e; p_dense := unhex d; p_readable := unhex r |}.
+Definition check_case (c : pcase) : bool := pcheck_case ptbl c.
+Definition diag_case (c : pcase) : string := to_string (pdiag_bytes ptbl c).
+"""
+
+BINOPS = ["And", "Or", "Equal", "NotEqual", "LowerThan", "LowerOrEqualThan", "GreaterThan", "GreaterOrEqualThan",
+          "Plus", "Minus", "Asterisk", "Slash", "DoubleSlash", "Percent", "Caret", "Concat"]
+UNOPS = ["Length", "Neg", "Not"]
+
+
+def polish_term(polish):
+    toks = polish.split(",")
+    pos = [0]
+
+    def go():
+        t = toks[pos[0]]
+        pos[0] += 1
+        if t[0] == "A":
+            return "(EAtom %s)" % t[1:]
+        if t[0] == "B":
+            l = go()
+            r = go()
+            return "(EBin %s %s %s)" % (BINOPS[int(t[1:])], l, r)
+        if t[0] == "U":
+            return "(EUn %s %s)" % (UNOPS[int(t[1:])], go())
+        return "(EParen %s)" % go()
+    return go()
+
+
 MODE_CTOR = {"S": "S_", "B0": "B0", "B1": "B1", "B2": "B2", "B3": "B3", "B4": "B4", "R": "R_", "M": "M_"}
 
 
@@ -126,6 +158,7 @@ def build_evaluator():
     Cached by the hash of every source involved."""
     srcs = [os.path.join(C.COQ, "Lib", "Bytes.v"), os.path.join(C.COQ, "Model", "Lexer.v"),
             os.path.join(C.COQ, "Model", "DenseGen.v"), os.path.join(C.COQ, "Model", "C02Check.v"),
+            os.path.join(C.COQ, "Model", "Precedence.v"),
             T.GENERATED_V, os.path.join(C.COQ, "Extract", "C02Extract.v"),
             os.path.join(C.ROOT, "vlib", "c02_driver.ml")]
     h = C.hashlib.sha256()
@@ -243,6 +276,90 @@ def run_stream(ctx, name, rows, exe, vm_sample):
     return model_only
 
 
+def parse_ops(out):
+    rows = []
+    for line in out.splitlines():
+        p = line.split(" ")
+        if len(p) != 9 or p[0] != "op":
+            continue
+        rows.append({"id": int(p[1]), "span": int(p[2]), "polish": p[3], "dense": undash(p[4]), "readable": undash(p[5]),
+                     "dflag": p[6], "rflag": p[7], "tag": p[8]})
+    return rows
+
+
+def negative_number_class(r):
+    """the two recorded defects of number nodes holding a negative value (-0.0); None = something else"""
+    if "A99" not in r["polish"]:
+        return None
+    d = bytes.fromhex(r["dense"]).decode("latin-1")
+    rd = bytes.fromhex(r["readable"]).decode("latin-1")
+    if "-0^" in d.replace("\n", "").replace(" ", "") or "-0^" in rd.replace("\n", "").replace(" ", ""):
+        return "paren:negative-number-left-of-caret"
+    if "-0.." in d:
+        return "fusion:negative-number-before-concat"
+    return None
+
+
+def run_ops(ctx, rows, exe, vm_sample):
+    name = ("operator trees: all trees with <= 2 operator nodes, triples, deeper random trees with explicit parentheses and "
+            "negative-zero number leaves: modelled printer vs both generators; REFERENCE precedence parser on the real text")
+    uniq = {}
+    for r in rows:
+        uniq.setdefault((r["polish"], r["span"]), r)
+    rows = list(uniq.values())
+    lines = ["op %d %s %s %s" % (i, r["polish"], r["dense"] or "-", r["readable"] or "-") for i, r in enumerate(rows)]
+    shards = [lines[k::C.NPROC] for k in range(C.NPROC)]
+    bad = []
+
+    def one(shard):
+        if not shard:
+            return 0, "done 0\n"
+        return C.sh([exe], input="\n".join(shard) + "\n", timeout=3000)
+    with C.ThreadPoolExecutor(max_workers=C.NPROC) as ex:
+        for shard, (rc, out) in zip(shards, ex.map(one, shards)):
+            done = None
+            for line in out.splitlines():
+                if line.startswith("bad "):
+                    _, cid, diag = (line.split(" ", 2) + [""])[:3]
+                    bad.append((int(cid), diag))
+                elif line.startswith("done "):
+                    done = int(line.split()[1])
+            if rc != 0 or done != len(shard):
+                raise C.CheckBroken("extracted C02 checker failed on operator trees (rc=%s):\n%s" % (rc, out[-1500:]))
+    flagged = sorted(set(cid for cid, _ in bad))[:20]
+    pick = sorted(set(list(range(0, len(rows), max(1, len(rows) // vm_sample))) + flagged))
+    vm_bad = C.run_coq_cases(ctx.prop, PREAMBLE_OPS,
+                             [(i, 'pc %s "%s" "%s"' % (polish_term(rows[i]["polish"]), rows[i]["dense"], rows[i]["readable"]))
+                              for i in pick], chunk=max(8, len(pick) // C.NPROC + 1), tag="ops")
+    bad_ids = set(cid for cid, _ in bad)
+    vm_ids = set(cid for cid, _ in vm_bad)
+    disagree = [i for i in pick if (i in bad_ids) != (i in vm_ids)]
+    ctx.obligation("extracted checker agrees with vm_compute inside coqc on %d sampled operator trees" % len(pick),
+                   not disagree, "disagreements at cases %r" % disagree[:5])
+    # non-trivial: the generator wrote at least one parenthesis that is not an explicit Parenthese node
+    nt = sum(1 for r in rows if bytes.fromhex(r["dense"]).count(b"(") > r["polish"].split(",").count("P"))
+    samples = [{"tree": r["polish"], "dense": text_of(r["dense"])} for r in rows[700:703]]
+    reparse_bad = [r for r in rows if "A99" not in r["polish"] and
+                   (r["dflag"] not in ("ok", "okp") or r["rflag"] not in ("ok", "okp"))]
+    ctx.stream(name, len(rows), nt, samples, mismatches=len(bad), reparse_mismatches=len(reparse_bad), evaluated_in_coqc=len(pick))
+    model_only = []
+    for cid, diag in bad:
+        r = rows[cid]
+        replay = {"stream": "operator trees", "tree_polish": r["polish"], "span": r["span"], "dense": text_of(r["dense"]),
+                  "readable": text_of(r["readable"]), "diag": diag, "tag": r["tag"]}
+        cls = negative_number_class(r)
+        if "ORACLE" in diag:
+            what = ("the reference parser does not read the written text back as the same operator tree (%s)" % diag.strip())
+            ctx.violation(what, replay, key=cls or ("oracle:%s:%d" % (r["polish"], r["span"])))
+        elif cls is None:
+            model_only.append((r, diag))
+    for r in reparse_bad[:3]:
+        ctx.violation("darklua's parser does not read back the same operator tree", {
+            "tree_polish": r["polish"], "dense": text_of(r["dense"]), "readable": text_of(r["readable"]),
+            "flags": [r["dflag"], r["rflag"]]}, key="reparse-ops:%s" % r["polish"])
+    return model_only
+
+
 def dump_tables(ctx):
     out = C.harness("dl-c02", ["tables", "--seed", str(ctx.seed)])
     tables = T.parse_tables(out)
@@ -259,12 +376,17 @@ def run(ctx):
             os.remove(os.path.join(C.REPLAYS, f))
     C.build_harness("dl-c02")
     tables = dump_tables(ctx)
-    prec = None
+    prec = T.parse_prec(C.harness("dl-c02", ["prec"]))
+    ctx.obligation("the unary-operand parenthesis rule read back from both generators' output equals "
+                   "!precedes_unary_expression for all 16 x 3 operator pairs", prec["unary_operand_check"] == [0],
+                   "mismatches=%r" % prec["unary_operand_check"])
+    ctx.obligation("no atom kind (%d samples) is ever parenthesised by left/right_needs_parentheses" % prec["atomcheck"][0],
+                   prec["atomcheck"][1] == 0, "parenthesised=%d" % prec["atomcheck"][1])
     T.write_if_changed(T.GENERATED_V, T.coq_source(
         tables, prec, "GENERATED on every run of ./check C02 from `dl-c02 tables` / `dl-c02 prec` (the compiled Rust code)."))
     diffs = T.diff_frozen(tables, prec)
     ctx.cov.setdefault("streams", {})
-    proofs_ok = C.proof_gate(ctx, extra_targets=["Generated/C02Tables.vo", "Model/C02Check.vo"])
+    proofs_ok = C.proof_gate(ctx, extra_targets=["Generated/C02Tables.vo", "Model/C02Check.vo", "Model/Precedence.vo"])
     exe = build_evaluator()
     ctx.cov["streams"]["tables vs frozen copy"] = dict(evaluations=128 * 128 * 6, distinct_nontrivial=0,
                                                        changed_entries=diffs[:40])
@@ -280,6 +402,17 @@ def run(ctx):
     rows = parse_cases(out)
     model_only += run_stream(ctx, "adjacent pairs: every ordered pair of 35 expression samples (one per token class) written next to "
                              "each other in every syntactic position", rows, exe, 60 if quick else 300)
+
+    out = C.harness("dl-c02", ["ops", "--seed", str(ctx.seed)] + (["--sample", "1500"] if quick else ["--full", "--sample", "20000"]),
+                    timeout=1800)
+    ops_model_only = run_ops(ctx, parse_ops(out), exe, 80 if quick else 400)
+    if ops_model_only and not ctx.violations:
+        r, diag = ops_model_only[0]
+        ctx.violation("correspondence broken: the generators' parentheses differ from Model/Precedence.tokens_of_expr on the "
+                      "dumped predicates (the parenthesisation theorem no longer applies to the code as modelled); the "
+                      "reference parser still reads every text back as the same tree",
+                      {"tree_polish": r["polish"], "dense": text_of(r["dense"]), "readable": text_of(r["readable"]),
+                       "diag": diag, "mismatches": len(ops_model_only)}, found_input=False)
 
     if model_only and not ctx.violations:
         r, diag = model_only[0]
